@@ -593,13 +593,20 @@ def run_potentials(ctx, exe):
             if len(ids) > 1:
                 partner[i] = ids[(n + 1) % len(ids)]
     fns, items, scripts = {}, [], {}
-    stats = dict(reuse=0, nondiv=0, decimal=0, long_rows=0, at_cut=0, at_min=0)
+    stats = dict(reuse=0, nondiv=0, decimal=0, long_rows=0, at_cut=0, at_min=0, spl_all_zero=0,
+                 zero_c12=0, zero_c6=0, zero_A=0, zero_B=0, zero_r0=0, neg_c12=0, neg_c6=0, neg_A=0, neg_B=0, neg_r0=0)
     for i, r in enumerate(vecs):
         fns[r["fn"]] = fns.get(r["fn"], 0) + 1
         nxt = vecs[partner[i]] if i in partner else None
         if r["fn"] == "cbspl":
             S = _spl_script(ctx, r, nxt)
+            stats["spl_all_zero"] += all(x == 0 for x in r["lam"])
         else:
+            if r["fn"] == "ljg":
+                # parameter points ON the coordinate hyperplanes (a parameter exactly 0) and on both sides
+                for k, nm in enumerate(("c12", "c6", "A", "B", "r0")):
+                    stats["zero_" + nm] += r["lam"][k] == 0
+                    stats["neg_" + nm] += r["lam"][k] < 0
             if r["big"]:
                 nxt = None
                 stats["long_rows"] = max(stats["long_rows"], r["bigtab"]["n"])
@@ -614,7 +621,8 @@ def run_potentials(ctx, exe):
     if sorted(fns) != ["cbspl", "lj126", "ljg"]:
         raise vlib.InfraError("vacuous potential export: %s" % fns)
     if (stats["reuse"] < 100 or stats["nondiv"] < 100 or stats["decimal"] < 2 or stats["long_rows"] < 100000
-            or stats["at_cut"] < 100 or stats["at_min"] < 100):
+            or stats["at_cut"] < 100 or stats["at_min"] < 100 or stats["spl_all_zero"] < 1
+            or min(v for k, v in stats.items() if k.startswith("zero_") or k.startswith("neg_")) < 2):
         raise vlib.InfraError("vacuous potential layers: %s" % stats)
     results, crashes = vlib.run_items(exe, items, env={"VERIF_SCRATCH": vlib.SCRATCH})
     npts = 0
